@@ -598,7 +598,8 @@ func (w *L1World) opCreateBridge(period time.Duration, mustSucceed bool) {
 	w.checkQuiescent()
 }
 
-var recipientStrings = []string{"init1recipient", "0xabcdef", "cosmos1qyqszqgpqyqszqgpqyqszqgpqyqszqgpjnp7du", "é中", "x"}
+var recipientStrings = []string{"init1recipient", "0xabcdef", "cosmos1qyqszqgpqyqszqgpqyqszqgpqyqszqgpjnp7du", "é中", "x",
+	"0x52908400098527886E0F7030069857D2E4169EE7", "INIT1QYQSZQGPQYQSZQGPQYQSZQGPQYQSZQGP", "MixedCase/Recipient-ÄÖ", " leading and trailing "}
 
 func (w *L1World) opDeposit() {
 	id := w.pickID()
@@ -805,6 +806,33 @@ func (w *L1World) opPropose() {
 		proposer = roles.Challenger
 	case 5:
 		proposer = mon.Pick(w.rng, w.strangers)
+	}
+	if len(b.outputs) > 0 && w.rng.Chance(12) {
+		// the proposer re-sends, byte for byte, an output that is already stored (a retry, a duplicated relay): it must
+		// be refused, and must not touch the stored output (its clock in particular)
+		old := b.outputs[len(b.outputs)-1]
+		if w.rng.Chance(30) {
+			old = mon.Pick(w.rng, b.outputs)
+		}
+		stBefore, _ := w.env.L1.Q.OutputProposal(w.env.L1.Ctx, &ophosttypes.QueryOutputProposalRequest{BridgeId: b.id, OutputIndex: old.Index})
+		res := w.env.L1.Deliver(ophosttypes.NewMsgProposeOutput(roles.Proposer.String(), b.id, old.Index, old.L2Block, old.OutputRoot[:]))
+		w.run.Evaluations++
+		stAfter, _ := w.env.L1.Q.OutputProposal(w.env.L1.Ctx, &ophosttypes.QueryOutputProposalRequest{BridgeId: b.id, OutputIndex: old.Index})
+		w.logf("propose bridge=%d RESUBMIT of stored output idx=%d l2=%d (next %d) -> %s %s", b.id, old.Index, old.L2Block, next, res.Class, res.ErrString())
+		same := stBefore != nil && stAfter != nil && stBefore.OutputProposal.L1BlockTime.Equal(stAfter.OutputProposal.L1BlockTime) && stBefore.OutputProposal.L1BlockNumber == stAfter.OutputProposal.L1BlockNumber
+		if w.mons.C11 {
+			w.run.Check("C11.propose_only_at_next", res.Class != sim.OK, "c11.resubmission_accepted", w.trace(), "re-submission of the output stored at index %d accepted while next is %d", old.Index, next)
+		}
+		if w.mons.C05 {
+			w.run.Check("C05.proposal_starts_clock_now", same && res.Class != sim.OK, "c05.clock_restarted_by_resubmission", w.trace(), "re-submitting the stored output %d of bridge %d was accepted=%v and changed its recorded proposal time/height: an output that was (or was about to become) final has its clock restarted", old.Index, b.id, res.Class == sim.OK)
+		}
+		if res.Class == sim.OK || !same {
+			w.run.Count("world.history_abandoned_after_accepted_resubmission")
+			w.cfg.Steps = 0 // the model is not continued past this point
+			return
+		}
+		w.checkQuiescent()
+		return
 	}
 	before := w.observe()
 	res := w.env.L1.Deliver(ophosttypes.NewMsgProposeOutput(proposer.String(), b.id, idx, l2, o.OutputRoot[:]))
